@@ -6,11 +6,13 @@ import (
 	"context"
 	"fmt"
 	"io"
+	gofs "io/fs"
 	"os"
 	"os/exec"
 	"path/filepath"
 	"strings"
 	"testing"
+	"time"
 
 	"github.com/tonistiigi/fsutil"
 	"github.com/tonistiigi/fsutil/types"
@@ -30,6 +32,9 @@ type c17Case struct {
 	Exclude []string `json:"exclude"`
 	Hide    []string `json:"hide"` // paths dropped by a second filter layer (Map), after the base view stat'ed them
 	Long    int      `json:"long"` // add an entry with a path of this many bytes (0 = none)
+	// Prior: what was done with the same view value before the export that is
+	// judged: 0 nothing, 1 a complete Walk of it, 2 another WriteTar
+	Prior int `json:"prior,omitempty"`
 }
 
 var c17TreeCfg = h.TreeCfg{
@@ -60,6 +65,9 @@ func genC17(t *rapid.T) *c17Case {
 	}
 	if rapid.IntRange(0, 4).Draw(t, "long") == 0 {
 		c.Long = rapid.SampledFrom([]int{101, 156, 256, 300}).Draw(t, "longn")
+	}
+	if rapid.IntRange(0, 2).Draw(t, "priormode") == 0 {
+		c.Prior = rapid.IntRange(1, 2).Draw(t, "prior")
 	}
 	return c
 }
@@ -204,6 +212,18 @@ func c17Check(env *h.Env, c *c17Case) error {
 			want = expectWalk(snap, func(string) bool { return true })
 		}
 	}
+	switch c.Prior {
+	case 1:
+		env.Class("view-walked-before")
+		if err := view.Walk(context.Background(), "", func(string, gofs.DirEntry, error) error { return nil }); err != nil {
+			return fmt.Errorf("Walk(%s view) failed: %v", c.View, err)
+		}
+	case 2:
+		env.Class("view-exported-before")
+		if err := fsutil.WriteTar(context.Background(), view, io.Discard); err != nil {
+			return fmt.Errorf("first WriteTar(%s view) failed: %v", c.View, err)
+		}
+	}
 	var buf bytes.Buffer
 	if err := fsutil.WriteTar(context.Background(), view, &buf); err != nil {
 		return fmt.Errorf("WriteTar(%s view) failed: %v", c.View, err)
@@ -298,9 +318,11 @@ func c17Check(env *h.Env, c *c17Case) error {
 		if hdr.Uid != int(st.Uid) || hdr.Gid != int(st.Gid) {
 			return fmt.Errorf("member %q has owner %d:%d, expected %d:%d", hdr.Name, hdr.Uid, hdr.Gid, st.Uid, st.Gid)
 		}
-		sec := st.ModTime / 1e9
-		if got := hdr.ModTime.Unix(); got != sec && got != sec+1 {
-			return fmt.Errorf("member %q has mtime %d s, expected %d s (+1 if rounded)", hdr.Name, got, sec)
+		// "to the second": the second the instant lies in, or the nearest one
+		// (archive/tar rounds when it writes whole seconds)
+		floor, near := secFloor(st.ModTime), time.Unix(0, st.ModTime).Round(time.Second).Unix()
+		if got := hdr.ModTime.Unix(); got != floor && got != near {
+			return fmt.Errorf("member %q has mtime %d s, expected %d s (or %d s if rounded)", hdr.Name, got, floor, near)
 		}
 		// xattrs as SCHILY.xattr records
 		gotX := map[string]string{}
@@ -363,7 +385,7 @@ func c17Compare(dir string, viewTree *h.Tree, who string) error {
 	want := h.ExpectedSnap(vt)
 	// tar carries whole seconds, rounded to nearest or truncated: accept either
 	for p, w := range want {
-		if g := snap[p]; g != nil && (g.Mtime/1e9 == w.Mtime/1e9 || g.Mtime/1e9 == w.Mtime/1e9+1) {
+		if g := snap[p]; g != nil && (secFloor(g.Mtime) == secFloor(w.Mtime) || secFloor(g.Mtime) == time.Unix(0, w.Mtime).Round(time.Second).Unix()) {
 			w.Mtime = g.Mtime
 		}
 	}
@@ -456,6 +478,15 @@ func extractTar(ms []tarMember, dir string) error {
 }
 
 var _ = types.PACKET_STAT
+
+// secFloor is the whole second an instant (ns since the epoch, may be negative) lies in.
+func secFloor(ns int64) int64 {
+	s := ns / 1e9
+	if ns%1e9 < 0 {
+		s--
+	}
+	return s
+}
 
 func TestC17(t *testing.T) {
 	h.Run(t, "C17", genC17, c17Check)
